@@ -10,6 +10,7 @@ from . import CHECK_VERSION, core
 from .driver import HarnessError, ZygoteSet, simroot
 
 PROP = "C16"
+FOREIGN_FILES = os.environ.get("VERIF_FOREIGN", "0") == "1"  # switched on for good once the repair is in /repo
 PROFILE = "z_c16"
 ASSUMPTIONS = [
     "simulated processes are either baton-passing threads inside one forked interpreter or real fork()ed processes that block on a pipe at every seam (half of the runs each); only the choice of who runs is simulated, the code that runs is the real perform_cached_doit/pickle/SymPy on a real tmpfs directory",
@@ -79,6 +80,9 @@ def generate(seed_: int, run: int, info: dict) -> dict:
         if rng.random() < 0.4:
             calls = [{"expr": rng.choice(subset), "dir": "shared"} for _ in range(rng.choice([1, 1, 2]))]
             actors.insert(rng.randrange(len(actors) + 1), {"kind": "legacy", "calls": calls})
+        if FOREIGN_FILES and rng.random() < 0.25:
+            calls = [{"expr": rng.choice(subset), "junk": rng.randrange(64)} for _ in range(rng.choice([1, 1, 2]))]
+            actors.insert(rng.randrange(len(actors) + 1), {"kind": "foreign", "calls": calls})
         chunk_modes = rng.choice([[0], [0, 1], [1], [1, 2], [2], [0, 1, 2, 3], [3, 1]])
         knobs = {
             "kills": rng.choice([0, 1, 1, 2]) if fault_mode else 0,
@@ -367,6 +371,7 @@ class Context:
             "cfgs": [p["cfg"] for p in phases],
             "n_actors": sum(len(p["actors"]) for p in phases),
             "legacy": sum(1 for p in phases for a in p["actors"] if a["kind"] == "legacy"),
+            "foreign": sum(1 for p in phases for a in p["actors"] if a["kind"] == "foreign"),
             "fault_mode": workload["fault_mode"],
             "mode": workload.get("mode", "thread"),
             "armed": {"kill": sum(p["knobs"]["kills"] for p in phases),
@@ -458,6 +463,7 @@ def coverage(records: list[dict], extras: list[dict], options: dict) -> dict:
                                "unset (emulated)": sum(n for c, n in cfgs.items() if c.startswith("HU"))},
         "distinct_hash_seed_configurations": len(cfgs),
         "runs_with_legacy_writer": sum(1 for r in records if r["stats"]["legacy"]),
+        "runs_with_foreign_files": sum(1 for r in records if r["stats"].get("foreign")),
         "runs_fault_free_configuration": sum(1 for r in records if not r["stats"]["fault_mode"]),
         "runs_with_real_process_actors": sum(1 for r in records if r["stats"].get("mode") == "proc"),
         "runs_with_thread_actors": sum(1 for r in records if r["stats"].get("mode") != "proc"),
